@@ -518,6 +518,61 @@ func (e *Env) call(x *ECall) Val {
 			r = v.Arr
 		}
 		return boolVal(and(app("<=", "0", r), app("<=", r, e.st.alloc)))
+	case "deref", "slot_isroot", "slot_node", "slot_idx", "slot_tree":
+		argn(1)
+		v := e.eval(x.Args[0])
+		if v.K != KLoc {
+			efail("%s of %s", x.Fn, describe(v))
+		}
+		l := v.Loc
+		switch x.Fn {
+		case "deref":
+			switch l.K {
+			case LField:
+				return e.x.loadField(e.st, l.Owner, l.Ref, l.Path[0])
+			case LFieldElem:
+				arrv := e.x.loadField(e.st, l.Owner, l.Ref, l.Path[0])
+				return scalar(l.T, sel(arrv.S, l.Idx))
+			case LSlot:
+				rootv := e.x.loadField(e.st, l.TreeOwner, l.Ref, l.RootPath)
+				arrv := e.x.loadField(e.st, l.Owner, l.NodeRef, l.Path[0])
+				return scalar(l.T, ite(l.IsRoot, rootv.S, sel(arrv.S, l.Idx)))
+			}
+			efail("deref of %s", describe(v))
+		case "slot_isroot":
+			switch l.K {
+			case LField:
+				return boolVal("true")
+			case LFieldElem:
+				return boolVal("false")
+			case LSlot:
+				return boolVal(l.IsRoot)
+			}
+		case "slot_node":
+			switch l.K {
+			case LFieldElem:
+				return scalar(types.NewPointer(l.Owner), l.Ref)
+			case LSlot:
+				return scalar(types.NewPointer(l.Owner), l.NodeRef)
+			case LField:
+				return scalar(types.NewPointer(l.Owner), "0")
+			}
+		case "slot_idx":
+			switch l.K {
+			case LFieldElem, LSlot:
+				return intVal(l.Idx)
+			case LField:
+				return intVal("0")
+			}
+		case "slot_tree":
+			switch l.K {
+			case LField:
+				return scalar(types.NewPointer(l.Owner), l.Ref)
+			case LSlot:
+				return scalar(types.NewPointer(l.TreeOwner), l.Ref)
+			}
+		}
+		efail("%s of %s", x.Fn, describe(v))
 	case "isnil":
 		argn(1)
 		v := e.eval(x.Args[0])
